@@ -27,6 +27,7 @@ const (
 	kTuple
 	kClosure
 	kFieldPtr // pointer to a tracked heap field of the receiver
+	kStruct   // a struct value: tup holds the fields
 )
 
 type aval struct {
@@ -92,6 +93,8 @@ func (a aval) String() string {
 		return "closure"
 	case kFieldPtr:
 		return "&self." + a.field.Name()
+	case kStruct:
+		return "struct"
 	}
 	return "?"
 }
@@ -292,6 +295,23 @@ func (e *explorer) store(s *pstate, f *pframe, p aval, v aval, in ssa.Instructio
 	switch p.k {
 	case kPtr:
 		s.cells[p.cell] = v
+		// a whole-struct store sets (or, for an unknown value, forgets) the field cells
+		for key, id := range s.sub {
+			if key[0] == p.cell {
+				s.cells[id] = aTop
+			}
+		}
+		if v.k == kStruct {
+			for i, fv := range v.tup {
+				key := [2]int{p.cell, i}
+				id, ok := s.sub[key]
+				if !ok {
+					id = e.newCell(s, aTop)
+					s.sub[key] = id
+				}
+				s.cells[id] = fv
+			}
+		}
 	case kFieldPtr:
 		s.heap[p.field] = v
 		s.trace = append(s.trace, pevent{Kind: "store", Args: []string{fieldName(p.field), v.String()}, Pos: e.c.instrPos(in)})
@@ -381,7 +401,20 @@ func (e *explorer) step(s *pstate) []*pstate {
 	case *ssa.UnOp:
 		switch x.Op {
 		case token.MUL:
-			f.env[x] = e.load(s, e.val(f, x.X))
+			p := e.val(f, x.X)
+			if st, ok := x.Type().Underlying().(*types.Struct); ok && p.k == kPtr {
+				// a local struct read as a whole (returned / copied by value): assemble it from its field cells
+				tup := make([]aval, st.NumFields())
+				for i := range tup {
+					tup[i] = aTop
+					if id, ok := s.sub[[2]int{p.cell, i}]; ok {
+						tup[i] = s.cells[id]
+					}
+				}
+				f.env[x] = aval{k: kStruct, tup: tup}
+			} else {
+				f.env[x] = e.load(s, p)
+			}
 		case token.NOT:
 			if b, ok := e.val(f, x.X).boolVal(); ok {
 				f.env[x] = aBool(!b)
@@ -420,7 +453,14 @@ func (e *explorer) step(s *pstate) []*pstate {
 			f.env[x] = aNonNil
 		}
 		return adv()
-	case *ssa.Field, *ssa.Index, *ssa.IndexAddr, *ssa.Lookup, *ssa.Slice, *ssa.MakeMap, *ssa.MakeSlice, *ssa.MakeChan, *ssa.Range, *ssa.Next, *ssa.TypeAssert:
+	case *ssa.Field:
+		if base := e.val(f, x.X); base.k == kStruct && x.Field < len(base.tup) {
+			f.env[x] = base.tup[x.Field]
+		} else {
+			f.env[x] = aTop
+		}
+		return adv()
+	case *ssa.Index, *ssa.IndexAddr, *ssa.Lookup, *ssa.Slice, *ssa.MakeMap, *ssa.MakeSlice, *ssa.MakeChan, *ssa.Range, *ssa.Next, *ssa.TypeAssert:
 		v := in.(ssa.Value)
 		switch in.(type) {
 		case *ssa.MakeMap, *ssa.MakeSlice, *ssa.MakeChan, *ssa.IndexAddr:
